@@ -34,10 +34,18 @@ structure CallObs where
   ended : Nat
   /-- Consul answered `false` to this call's write -/
   refused : Bool
+  /-- Consul APPLIED a write request of this very call (answered `true`) -/
+  wrote : Bool := true
 
 /-- "If the shared counter cannot be advanced atomically the start fails": a refused write
     never comes with a number. -/
 def refusedIsErr (cs : List CallObs) : Bool := cs.all fun c => !c.refused || c.ok.isNone
+
+/-- "…the start fails instead of reusing a number", seen from the other side: a number is handed
+    only to a call whose OWN write Consul applied — the counter advances once per number. A call
+    that is answered with a number although no write of its own was applied (it was handed somebody
+    else's answer, a cached value, …) re-uses a number by construction. -/
+def ownWriteB (cs : List CallObs) : Bool := cs.all fun c => c.ok.isNone || c.wrote
 
 def retsOf (cs : List CallObs) : List Ret :=
   cs.filterMap fun c => c.ok.map fun n => { caller := c.caller, num := n, started := c.started, ended := c.ended }
@@ -46,7 +54,7 @@ def retsOf (cs : List CallObs) : List Ret :=
     assumption about the environment: nobody else lowers the counter — no protocol can be
     unique without it, `C07_foreign_lowering_breaks_any_counter`). -/
 def SpecObs (fm : Bool) (L : Nat) (cs : List CallObs) : Bool :=
-  refusedIsErr cs && (!fm || Spec L (retsOf cs))
+  refusedIsErr cs && ownWriteB cs && (!fm || Spec L (retsOf cs))
 
 /-! ### environment level: the numbers an ENVIRONMENT hands to its successive start attempts -/
 
